@@ -168,7 +168,8 @@ def verify_one(task):
     try:
         js = json.loads(out)
     except Exception:
-        res.update(status="infra", detail="cbmc output not JSON: " + out[-1500:])
+        # typically an SMT2-conversion invariant violation of CBMC: this back end cannot decide, others may
+        res.update(status="undecided", detail="back end %s could not process the problem: %s" % (task["backend"], out[-300:].replace("\n", " ")))
         return res
     props, msgs = None, []
     for item in js:
@@ -219,8 +220,8 @@ def verify_chain(task):
                 best = r
         if r["status"] == "failed" and r["mode"] == "concrete":
             break
-        if r["status"] == "infra":
-            break
+        if r["status"] == "infra" and not hist[:-1]:
+            break   # the first attempt already cannot be built: later ones share the problem
     best["history"] = hist
     return best
 
